@@ -55,7 +55,10 @@ def record_one(job):
     seed = job["seed"]
     rng = random.Random(seed)
     Ts = rng.choice(TS_CHOICES)
-    fdts = rng.uniform(0.02, 0.2)
+    # normalised Doppler: ordinary fading rates, and (every third trace) slow fading down to 1e-7 per sample, where
+    # only positions of 10^7 .. 10^10 samples show that the channel moves.  (Below 1e-7 neighbouring samples get
+    # too close for an unambiguous identification of the index; stage R covers 1e-9 .. 1e-7 at emitted indexes.)
+    fdts = rng.uniform(0.02, 0.2) if rng.random() < 0.67 else 10 ** rng.uniform(-7, -1.7)
     Fd = fdts / Ts
     L = rng.randint(4, 16)
     mir = c14.Mirror(L, seed)
